@@ -37,6 +37,7 @@ var c19Objects = []struct{ dir, pkg, typ string }{
 	{"transport", "transport", "Telnet"},
 	{"transport", "transport", "File"},
 	{"channel", "channel", "Channel"},
+	{"logging", "logging", "Instance"},
 }
 
 var c19PkgDir = map[string]string{
@@ -125,6 +126,12 @@ func fieldKind(t string) string {
 	case "*regexp.Regexp":
 		return "regex"
 	}
+	if strings.HasPrefix(t, "map[") {
+		return "map"
+	}
+	if strings.HasPrefix(t, "[]") {
+		return "list"
+	}
 	return "opaque"
 }
 
@@ -136,7 +143,7 @@ func zeroOf(kind string) []string {
 		return []string{""}
 	case "bool":
 		return []string{"false"}
-	case "strs":
+	case "strs", "map", "list":
 		return []string{}
 	}
 	return []string{"<nil>"}
@@ -563,7 +570,9 @@ func buildC19Table() *c19Table {
 	t := &c19Table{}
 	skip := map[string]bool{"util.Queue": true, "transport.Transport": true}
 	for _, o := range c19Objects {
-		skip[o.pkg+"."+o.typ] = true
+		if o.pkg != "logging" { // a *logging.Instance field is a setting (the logger), not a sub-object
+			skip[o.pkg+"."+o.typ] = true
+		}
 	}
 	for _, o := range c19Objects {
 		tgt := o.pkg + "." + o.typ
@@ -574,6 +583,9 @@ func buildC19Table() *c19Table {
 			f.defExpr = exprs[f.name]
 			if d, ok := defs[f.name]; ok {
 				if d != nil {
+					if (f.kind == "strs" || f.kind == "map" || f.kind == "list") && len(d) == 1 && d[0] == "<nil>" {
+						d = []string{} // nil and empty collections render alike
+					}
 					f.def, f.defKnown = d, true
 				}
 			} else {
@@ -600,6 +612,24 @@ func buildC19Table() *c19Table {
 				continue
 			}
 			if o, ok := parseOption(fd, "options", im, t); ok {
+				for _, tg := range o.targets {
+					addTarget(tg)
+				}
+				t.opts = append(t.opts, o)
+			}
+		}
+	}
+	// options of the logging instance (logging.NewInstance)
+	lfiles := parseDir(filepath.Join(*repo, "logging"))
+	for _, fn := range sortedNames(lfiles) {
+		im := importMap(lfiles[fn])
+		for _, d := range lfiles[fn].Decls {
+			fd, ok := d.(*ast.FuncDecl)
+			if !ok || fd.Recv != nil || !strings.HasPrefix(fd.Name.Name, "With") {
+				continue
+			}
+			if o, ok := parseOption(fd, "logging", im, t); ok {
+				o.name = "logging_" + o.name
 				for _, tg := range o.targets {
 					addTarget(tg)
 				}
@@ -670,6 +700,10 @@ func genOptions() string {
 	for _, f := range t.fields {
 		fmt.Fprintf(&b, "  | .%s => %s\n", t.fieldCtor(f.target, f.name), leanStr(f.typ))
 	}
+	b.WriteString("\n/-- rendering class of the field: int str bool strs bytes duration regex map opaque -/\ndef Field.kind : Field → String\n")
+	for _, f := range t.fields {
+		fmt.Fprintf(&b, "  | .%s => %s\n", t.fieldCtor(f.target, f.name), leanStr(f.kind))
+	}
 	b.WriteString("\n/-- value the constructor literal gives the field (`none`: not a compile-time value) -/\ndef Field.default : Field → Option (List Bytes)\n")
 	for _, f := range t.fields {
 		if f.defKnown {
@@ -699,7 +733,7 @@ func genOptions() string {
 		if o.hasValid {
 			valid = "some " + leanBytesList(o.valid)
 		}
-		fmt.Fprintf(&b, "  | .%s => { name := %s, targets := [%s], params := %s,\n      writes := [%s],\n      badOption := %v, otherErr := %v, validateFirst := %v, valid := %s, internal := %v }\n",
+		fmt.Fprintf(&b, "  | .%s => { name := %s, targets := [%s], params := %s, writes := [%s], badOption := %v, otherErr := %v, validateFirst := %v, valid := %s, internal := %v }\n",
 			leanCtor(o.name), leanStr(o.name), strings.Join(tgs, ", "), leanStrList(o.params), strings.Join(ws, ", "),
 			o.badOption, o.otherErr, o.validateFirst, valid, o.internal)
 	}
